@@ -76,6 +76,8 @@ class Ctx:
         self.exhaustive = None
         self.rule = ""
         self.built = set()
+        # behaviour beyond the listed properties: own evidence directory, own report line (never a property VIOLATION)
+        self.beyond = False
 
     # ------------------------------------------------------------------ helpers
     def q(self, quick, thorough):
@@ -375,8 +377,9 @@ class Ctx:
             "violations": len(new),
             "known_findings_seen": sum(c for _, c in matched.values()),
         }
-        os.makedirs(os.path.join(VERIF, "evidence"), exist_ok=True)
-        with open(os.path.join(VERIF, "evidence", self.pid + ".json"), "w") as f:
+        evdir = os.path.join(VERIF, "evidence_beyond" if self.beyond else "evidence")
+        os.makedirs(evdir, exist_ok=True)
+        with open(os.path.join(evdir, self.pid + ".json"), "w") as f:
             json.dump(ev, f, indent=1)
             f.write("\n")
         if new:
@@ -390,7 +393,10 @@ class Ctx:
                 rp = self.path("violation-%d.json" % n)
                 with open(rp, "w") as f:
                     json.dump({"property": self.pid, **v}, f, indent=1)
-                print("VIOLATION property=%s replay=%s  [%s]" % (self.pid, rp, v["key"]))
+                if self.beyond:
+                    print("BEYOND-MISMATCH component=%s replay=%s  [%s]" % (self.pid, rp, v["key"]))
+                else:
+                    print("VIOLATION property=%s replay=%s  [%s]" % (self.pid, rp, v["key"]))
                 if n >= 20:
                     break
             self.log("%d violation(s) (%d shown)" % (len(new), n))
